@@ -58,12 +58,17 @@ Definition enc_err (e : err) : N :=
 
 Definition dec_policy (n : N) : undefined_policy := match n with 1 => Strict | 2 => Lenient | _ => env_undefined_policy end.
 
+Definition enc_scope (s : loop_scope) : sexp := A (match s with ScopePop => 0 | ScopeRestore => 1 end).
+Definition enc_empty (e : empty_loop) : sexp := A (match e with EmptyFallThrough => 0 | EmptySkip => 1 end).
+
 Definition dispatch_blocks (fn : N) (args : list sexp) : sexp :=
   match fn, args with
+  | 0, [] =>                              (* what the probes of this run say the code does *)
+    L [enc_scope loop_scope_policy; enc_empty empty_loop_policy; enc_bool remove_tolerant]
   | 1, [A pol; A fuel; rows; c] =>        (* pol 0 = the policy the code configures (Tables) *)
     match dec_list dec_raw rows, dec_ctx c with
     | Some rs, Some c' =>
-      match parse_block (dec_policy pol) rs (N.to_nat fuel) (mkP 0 c' []) BRoot false with
+      match parse_block (dec_policy pol) loop_scope_policy empty_loop_policy remove_tolerant rs (N.to_nat fuel) (mkP 0 c' []) BRoot false with
       | ROk s => L [A 0; L (map enc_event (rev (p_log s)));
                     L (map (fun kv => L [enc_str (fst kv); enc_value (snd kv)]) (p_ctx s))]
       | RErr e => L [A 1; A (enc_err e)]
